@@ -153,7 +153,7 @@ Variables (f : fmap) (pd pr mk : list wmsg) (nx : positive).
 Lemma unmark0_sets o : Loc 0 f pd pr (o :: mk) nx -> Mk0 f pd (o :: mk) -> fl f o = 0%N ->
   let f' := flag_set f (wm_id o) 1 in
   (forall y, Live f' pd y <-> Live f pd y) /\
-  (forall i, Dm f' pd pr i <-> Dm f pd pr i \/ i = wm_id o) /\ Mk0 f' pd mk /\ (No5 f pr -> No5 f' pr).
+  (forall i, Dm f' pd pr i <-> Dm f pd pr i \/ i = wm_id o) /\ Mk0 f' pd mk /\ (forall L, No5 f L -> No5 f' L).
 Proof.
   intros L M0 Hf f'. pose proof (l_body _ _ _ _ _ _ L) as Hb.
   assert (Hid : forall y, In y (pd ++ pr ++ o :: mk) -> wm_id y = wm_id o -> y = o).
@@ -179,14 +179,14 @@ Proof.
       * exists o. split; [reflexivity|left]. split; [exact Hopd|]. rewrite fl_set, Pos.eqb_refl. reflexivity.
   - intros y Hy Hfl. unfold f' in Hfl. rewrite fl_set in Hfl. destruct (Pos.eqb_spec (wm_id y) (wm_id o)) as [E|E]; [discriminate|].
     apply M0; [right; exact Hy|exact Hfl].
-  - intros N5 y Hy. unfold f'. rewrite fl_set. destruct (Pos.eqb_spec (wm_id y) (wm_id o)) as [E|E]; [discriminate|apply N5; exact Hy].
+  - intros L0 N5 y Hy. unfold f'. rewrite fl_set. destruct (Pos.eqb_spec (wm_id y) (wm_id o)) as [E|E]; [discriminate|apply N5; exact Hy].
 Qed.
 
 (* one marker un-done, message already processed: it is now cancelled where it is, and its notice is queued (not part of the pool) *)
 Lemma unmark2_sets o : Loc 0 f pd pr (o :: mk) nx -> Mk0 f pd (o :: mk) -> fl f o = 2%N ->
   let f' := flag_set f (wm_id o) 3 in
   (forall y, Live f' (o :: pd) y <-> Live f pd y) /\
-  (forall i, Dm f' (o :: pd) pr i <-> Dm f pd pr i \/ i = wm_id o) /\ Mk0 f' (o :: pd) mk /\ (No5 f pr -> No5 f' pr).
+  (forall i, Dm f' (o :: pd) pr i <-> Dm f pd pr i \/ i = wm_id o) /\ Mk0 f' (o :: pd) mk /\ (forall L, No5 f L -> No5 f' L).
 Proof.
   intros L M0 Hf f'. pose proof (l_body _ _ _ _ _ _ L) as Hb.
   assert (Hid : forall y, In y (pd ++ pr ++ o :: mk) -> wm_id y = wm_id o -> y = o).
@@ -214,14 +214,14 @@ Proof.
       * exists o. split; [reflexivity|right]. split; [exact Hopr|]. rewrite fl_set, Pos.eqb_refl. left. reflexivity.
   - intros y Hy Hfl. unfold f' in Hfl. rewrite fl_set in Hfl. destruct (Pos.eqb_spec (wm_id y) (wm_id o)) as [E|E]; [discriminate|].
     right. apply M0; [right; exact Hy|exact Hfl].
-  - intros N5 y Hy. unfold f'. rewrite fl_set. destruct (Pos.eqb_spec (wm_id y) (wm_id o)) as [E|E]; [discriminate|apply N5; exact Hy].
+  - intros L0 N5 y Hy. unfold f'. rewrite fl_set. destruct (Pos.eqb_spec (wm_id y) (wm_id o)) as [E|E]; [discriminate|apply N5; exact Hy].
 Qed.
 
 (* one processed message un-done, not cancelled: back into the pool *)
 Lemma unproc2_sets y0 : Loc 0 f pd (y0 :: pr) mk nx -> Mk0 f pd mk -> fl f y0 = 2%N ->
   let f' := flag_set f (wm_id y0) 0 in
   (forall y, Live f' (y0 :: pd) y <-> Live f pd y \/ y = y0) /\
-  (forall i, Dm f' (y0 :: pd) pr i <-> Dm f pd (y0 :: pr) i) /\ Mk0 f' (y0 :: pd) mk /\ (No5 f (y0 :: pr) -> No5 f' pr).
+  (forall i, Dm f' (y0 :: pd) pr i <-> Dm f pd (y0 :: pr) i) /\ Mk0 f' (y0 :: pd) mk /\ (forall L, No5 f L -> No5 f' L).
 Proof.
   intros L M0 Hf f'. pose proof (l_body _ _ _ _ _ _ L) as Hb.
   assert (Hid : forall y, In y (pd ++ (y0 :: pr) ++ mk) -> wm_id y = wm_id y0 -> y = y0).
@@ -248,14 +248,14 @@ Proof.
   - intros y Hy Hfl. unfold f' in Hfl. rewrite fl_set in Hfl. destruct (Pos.eqb_spec (wm_id y) (wm_id y0)) as [E|E].
     + left. symmetry. apply Hid; [rewrite !in_app_iff; tauto|exact E].
     + right. apply M0; assumption.
-  - intros N5 y Hy. unfold f'. rewrite fl_set. destruct (Pos.eqb_spec (wm_id y) (wm_id y0)) as [E|E]; [discriminate|apply N5; right; exact Hy].
+  - intros L0 N5 y Hy. unfold f'. rewrite fl_set. destruct (Pos.eqb_spec (wm_id y) (wm_id y0)) as [E|E]; [discriminate|apply N5; exact Hy].
 Qed.
 
 (* one processed message un-done that was cancelled meanwhile: its queued notice becomes the pool's (cancelled) copy *)
 Lemma unproc3_sets y0 : Loc 0 f pd (y0 :: pr) mk nx -> Mk0 f pd mk -> fl f y0 = 3%N ->
   let f' := flag_set f (wm_id y0) 1 in
   (forall y, Live f' pd y <-> Live f pd y \/ y = y0) /\
-  (forall i, Dm f' pd pr i <-> Dm f pd (y0 :: pr) i) /\ Mk0 f' pd mk /\ (No5 f (y0 :: pr) -> No5 f' pr).
+  (forall i, Dm f' pd pr i <-> Dm f pd (y0 :: pr) i) /\ Mk0 f' pd mk /\ (forall L, No5 f L -> No5 f' L).
 Proof.
   intros L M0 Hf f'. pose proof (l_body _ _ _ _ _ _ L) as Hb.
   assert (Hid : forall y, In y (pd ++ (y0 :: pr) ++ mk) -> wm_id y = wm_id y0 -> y = y0).
@@ -279,14 +279,14 @@ Proof.
       * exists y. split; [reflexivity|]. rewrite fl_set. destruct (Pos.eqb_spec (wm_id y) (wm_id y0)) as [E'|_]; [contradiction|].
         destruct H as [H|[[<-|Hy] Hfl]]; [left; exact H|congruence|right; split; assumption].
   - intros y Hy Hfl. unfold f' in Hfl. rewrite fl_set in Hfl. destruct (Pos.eqb_spec (wm_id y) (wm_id y0)) as [E|E]; [discriminate|]. apply M0; assumption.
-  - intros N5 y Hy. unfold f'. rewrite fl_set. destruct (Pos.eqb_spec (wm_id y) (wm_id y0)) as [E|E]; [discriminate|apply N5; right; exact Hy].
+  - intros L0 N5 y Hy. unfold f'. rewrite fl_set. destruct (Pos.eqb_spec (wm_id y) (wm_id y0)) as [E|E]; [discriminate|apply N5; exact Hy].
 Qed.
 
 (* the annihilation of the cancelled processed message whose notice is in hand *)
 Lemma unproc5_sets y0 : Loc 0 f pd (y0 :: pr) mk nx -> Mk0 f pd mk -> fl f y0 = 5%N ->
   let f' := flag_set f (wm_id y0) 3 in
   (forall y, Live f' pd y <-> Live f pd y) /\
-  (forall i, Dm f' pd pr i <-> Dm f pd (y0 :: pr) i /\ i <> wm_id y0) /\ Mk0 f' pd mk /\ (No5 f pr -> No5 f' pr).
+  (forall i, Dm f' pd pr i <-> Dm f pd (y0 :: pr) i /\ i <> wm_id y0) /\ Mk0 f' pd mk /\ (forall L, No5 f L -> No5 f' L).
 Proof.
   intros L M0 Hf f'. pose proof (l_body _ _ _ _ _ _ L) as Hb.
   assert (Hid : forall y, In y (pd ++ (y0 :: pr) ++ mk) -> wm_id y = wm_id y0 -> y = y0).
@@ -306,23 +306,23 @@ Proof.
     + intros [(y & Ey & H) Hne]. exists y. split; [exact Ey|]. rewrite fl_set. destruct (Pos.eqb_spec (wm_id y) (wm_id y0)) as [E|_]; [congruence|].
       destruct H as [H|[[<-|Hy] Hfl]]; [left; exact H|congruence|right; split; assumption].
   - intros y Hy Hfl. unfold f' in Hfl. rewrite fl_set in Hfl. destruct (Pos.eqb_spec (wm_id y) (wm_id y0)) as [E|E]; [discriminate|]. apply M0; assumption.
-  - intros N5 y Hy. unfold f'. rewrite fl_set. destruct (Pos.eqb_spec (wm_id y) (wm_id y0)) as [E|E]; [discriminate|apply N5; exact Hy].
+  - intros L0 N5 y Hy. unfold f'. rewrite fl_set. destruct (Pos.eqb_spec (wm_id y) (wm_id y0)) as [E|E]; [discriminate|apply N5; exact Hy].
 Qed.
 End Sets.
 
 (* ---------- send_anti_messages over a list of entries none of which is being annihilated ---------- *)
 Lemma undo_all_sets es : forall w pr mk,
   Loc 0 (k_flags w) (pend w) (procs_of es ++ pr) (marks_of es ++ mk) (k_next w) ->
-  Mk0 (k_flags w) (pend w) (marks_of es ++ mk) -> No5 (k_flags w) (procs_of es ++ pr) ->
+  Mk0 (k_flags w) (pend w) (marks_of es ++ mk) -> No5 (k_flags w) (procs_of es) ->
   let w' := fold_left undo_entry es w in
   Loc 0 (k_flags w') (pend w') pr mk (k_next w') /\
   (forall y, Live (k_flags w') (pend w') y <-> Live (k_flags w) (pend w) y \/ In y (procs_of es)) /\
   (forall i, Dm (k_flags w') (pend w') pr i <-> Dm (k_flags w) (pend w) (procs_of es ++ pr) i \/ In i (map wm_id (marks_of es))) /\
-  Mk0 (k_flags w') (pend w') mk /\ No5 (k_flags w') pr /\ k_next w' = k_next w.
+  Mk0 (k_flags w') (pend w') mk /\ (forall L, No5 (k_flags w) L -> No5 (k_flags w') L) /\ k_next w' = k_next w.
 Proof.
   induction es as [|e es IH]; intros w pr mk HL M0 N5; cbn [fold_left].
   - cbn [procs_of marks_of flat_map app map] in *. split; [exact HL|]. split; [intros y; cbn [In]; tauto|]. split; [intros i; cbn [In]; tauto|].
-    split; [exact M0|split; [exact N5|reflexivity]].
+    split; [exact M0|split; [intros L0 H; exact H|reflexivity]].
   - destruct e as [o|y0].
     + change (procs_of (ESent o :: es)) with (procs_of es) in *.
       change (marks_of (ESent o :: es) ++ mk) with (o :: (marks_of es ++ mk)) in *.
@@ -331,28 +331,29 @@ Proof.
                 Loc 0 (k_flags w1) (pend w1) (procs_of es ++ pr) (marks_of es ++ mk) (k_next w1) /\
                 (forall y, Live (k_flags w1) (pend w1) y <-> Live (k_flags w) (pend w) y) /\
                 (forall i, Dm (k_flags w1) (pend w1) (procs_of es ++ pr) i <-> Dm (k_flags w) (pend w) (procs_of es ++ pr) i \/ i = wm_id o) /\
-                Mk0 (k_flags w1) (pend w1) (marks_of es ++ mk) /\ No5 (k_flags w1) (procs_of es ++ pr) /\ k_next w1 = k_next w).
+                Mk0 (k_flags w1) (pend w1) (marks_of es ++ mk) /\ (forall L, No5 (k_flags w) L -> No5 (k_flags w1) L) /\ k_next w1 = k_next w).
       { destruct (Loc_unmark _ _ _ _ _ _ _ HL ltac:(lia)) as [[Hf HL']|[Hf HL']]; cbn zeta; unfold undo_entry, flag_add; fold (fl (k_flags w) o); rewrite Hf.
-        - destruct (unmark0_sets _ _ _ _ _ o HL M0 Hf) as (S1 & S2 & S3 & S4). cbn. split; [exact HL'|]. split; [exact S1|]. split; [exact S2|]. split; [exact S3|]. split; [apply S4; exact N5|reflexivity].
-        - destruct (unmark2_sets _ _ _ _ _ o HL M0 Hf) as (S1 & S2 & S3 & S4). cbn. split; [exact HL'|]. split; [exact S1|]. split; [exact S2|]. split; [exact S3|]. split; [apply S4; exact N5|reflexivity]. }
+        - destruct (unmark0_sets _ _ _ _ _ o HL M0 Hf) as (S1 & S2 & S3 & S4). cbn. split; [exact HL'|]. split; [exact S1|]. split; [exact S2|]. split; [exact S3|]. split; [exact S4|reflexivity].
+        - destruct (unmark2_sets _ _ _ _ _ o HL M0 Hf) as (S1 & S2 & S3 & S4). cbn. split; [exact HL'|]. split; [exact S1|]. split; [exact S2|]. split; [exact S3|]. split; [exact S4|reflexivity]. }
       cbn zeta in Hstep. destruct Hstep as (H1 & H2 & H3 & H4 & H5 & H6).
-      destruct (IH (undo_entry w (ESent o)) pr mk H1 H4 H5) as (I1 & I2 & I3 & I4 & I5 & I6). cbn zeta in *.
-      split; [exact I1|]. split; [intros y; rewrite I2, H2; tauto|]. split; [|split; [exact I4|split; [exact I5|rewrite I6; exact H6]]].
+      destruct (IH (undo_entry w (ESent o)) pr mk H1 H4 (H5 _ N5)) as (I1 & I2 & I3 & I4 & I5 & I6). cbn zeta in *.
+      split; [exact I1|]. split; [intros y; rewrite I2, H2; tauto|]. split; [|split; [exact I4|split; [intros L0 H; apply I5; apply H5; exact H|rewrite I6; exact H6]]].
       intros i. rewrite I3, H3. cbn [In]. split; [intros [[H|H]|H]; auto|intros [H|[H|H]]; auto].
     + change (marks_of (EProc y0 :: es)) with (marks_of es) in *.
       change (procs_of (EProc y0 :: es) ++ pr) with (y0 :: (procs_of es ++ pr)) in *.
-      change (procs_of (EProc y0 :: es)) with (y0 :: procs_of es).
+      change (procs_of (EProc y0 :: es)) with (y0 :: procs_of es) in *.
       assert (Hstep : let w1 := undo_entry w (EProc y0) in
                 Loc 0 (k_flags w1) (pend w1) (procs_of es ++ pr) (marks_of es ++ mk) (k_next w1) /\
                 (forall y, Live (k_flags w1) (pend w1) y <-> Live (k_flags w) (pend w) y \/ y = y0) /\
                 (forall i, Dm (k_flags w1) (pend w1) (procs_of es ++ pr) i <-> Dm (k_flags w) (pend w) (y0 :: (procs_of es ++ pr)) i) /\
-                Mk0 (k_flags w1) (pend w1) (marks_of es ++ mk) /\ No5 (k_flags w1) (procs_of es ++ pr) /\ k_next w1 = k_next w).
+                Mk0 (k_flags w1) (pend w1) (marks_of es ++ mk) /\ (forall L, No5 (k_flags w) L -> No5 (k_flags w1) L) /\ k_next w1 = k_next w).
       { destruct (Loc_unproc _ _ _ _ _ _ _ HL) as [[Hf HL']|[[Hf HL']|[Hf HL']]]; cbn zeta; unfold undo_entry, flag_sub; fold (fl (k_flags w) y0); rewrite Hf.
-        - destruct (unproc2_sets _ _ _ _ _ y0 HL M0 Hf) as (S1 & S2 & S3 & S4). cbn. split; [exact HL'|]. split; [exact S1|]. split; [exact S2|]. split; [exact S3|]. split; [apply S4; exact N5|reflexivity].
-        - destruct (unproc3_sets _ _ _ _ _ y0 HL M0 Hf) as (S1 & S2 & S3 & S4). cbn. split; [exact HL'|]. split; [exact S1|]. split; [exact S2|]. split; [exact S3|]. split; [apply S4; exact N5|reflexivity].
+        - destruct (unproc2_sets _ _ _ _ _ y0 HL M0 Hf) as (S1 & S2 & S3 & S4). cbn. split; [exact HL'|]. split; [exact S1|]. split; [exact S2|]. split; [exact S3|]. split; [exact S4|reflexivity].
+        - destruct (unproc3_sets _ _ _ _ _ y0 HL M0 Hf) as (S1 & S2 & S3 & S4). cbn. split; [exact HL'|]. split; [exact S1|]. split; [exact S2|]. split; [exact S3|]. split; [exact S4|reflexivity].
         - exfalso. apply (N5 y0 (or_introl eq_refl)). exact Hf. }
       cbn zeta in Hstep. destruct Hstep as (H1 & H2 & H3 & H4 & H5 & H6).
-      destruct (IH (undo_entry w (EProc y0)) pr mk H1 H4 H5) as (I1 & I2 & I3 & I4 & I5 & I6). cbn zeta in *.
+      assert (N5' : No5 (k_flags (undo_entry w (EProc y0))) (procs_of es)) by (apply H5; intros z Hz; apply N5; right; exact Hz).
+      destruct (IH (undo_entry w (EProc y0)) pr mk H1 H4 N5') as (I1 & I2 & I3 & I4 & I5 & I6). cbn zeta in *.
       split; [exact I1|]. split; [intros y; rewrite I2, H2; cbn [In]; split; [intros [[H|H]|H]; auto|intros [H|[H|H]]; auto]|].
-      split; [intros i; rewrite I3, H3; reflexivity|]. split; [exact I4|split; [exact I5|rewrite I6; exact H6]].
+      split; [intros i; rewrite I3, H3; reflexivity|]. split; [exact I4|split; [intros L0 H; apply I5; apply H5; exact H|rewrite I6; exact H6]].
 Qed.
